@@ -122,3 +122,7 @@ func vNodeID(k int) *vNode {
 	}
 	return &vNode{c: c, data: data}
 }
+
+// VerifH_C15_RootWriteCarOnce: the root-module traversal writer is also C15's subject ("exactly the
+// visited blocks, once, in first-visit order"): the same harness as VerifH_C01_RootWriteCar.
+func VerifH_C15_RootWriteCarOnce() { VerifH_C01_RootWriteCar() }
